@@ -135,10 +135,13 @@ class StateFlow(object):
         self.excepted = {}  # (function name, key) -> reason: reads assumed defined (exceptions table)
         self.excepted_hits = []
         self.excepted_context = "fragment_data"  # the table applies only below this function
+        self.alias_keys = {}  # key -> description of the module-level object it may alias
+        self.alias_muts = []  # (mod, fn, node, key, ok, stack)
         self.rounds = 0
         self.recording = True
         self._scan_assigners()
         self._finish_assigners()
+        self._scan_aliases()
 
     # ------------------------------------------------------------ statics
     def _retained(self):
@@ -175,6 +178,32 @@ class StateFlow(object):
                         k = self.skey_syntactic(t)
                         if k:
                             self.assigners[k].add(fn.name)
+
+    def _scan_aliases(self):
+        """keys assigned directly from a module-level / external table object:
+        state[k] = TABLE[...] / TABLE / mod.TABLE  (stored by reference)."""
+        for m in self.repo.modules.values():
+            for fn in ast.walk(m.tree):
+                if not isinstance(fn, ast.FunctionDef):
+                    continue
+                local = set(a.arg for a in fn.args.args)
+                for n in ast.walk(fn):
+                    if isinstance(n, ast.Name) and isinstance(n.ctx, ast.Store):
+                        local.add(n.id)
+                for n in ast.walk(fn):
+                    if isinstance(n, ast.Assign):
+                        for t in n.targets:
+                            k = self.skey_syntactic(t)
+                            if not k:
+                                continue
+                            v = n.value
+                            base = v
+                            while isinstance(base, (ast.Subscript, ast.Attribute)):
+                                base = base.value
+                            if isinstance(v, (ast.Subscript, ast.Name, ast.Attribute)) and isinstance(base, ast.Name) and base.id not in local and base.id != STATE:
+                                sym = self.repo.resolve(m.name, base.id)
+                                if sym is not None and (sym.kind == "external" or (sym.kind == "assign" and not isinstance(sym.node, ast.Constant))):
+                                    self.alias_keys.setdefault(k, "%s:%s `%s`" % (m.rel, fn.name, norm(n)))
 
     def _finish_assigners(self):
         d = defaultdict(set)
@@ -497,7 +526,9 @@ class StateFlow(object):
         if fr.try_depth:
             raise AnalysisError("reset_state inside try body")
         D = {k: "retained" for k in st.D if k in self.retained}
-        return AS(D, frozenset(), {}, st.E | frozenset(["reset_state"]))
+        # events describing the I/O position survive; per-sequence events do not
+        keep = frozenset(e for e in st.E if e in ("aligned",))
+        return AS(D, frozenset(), {}, keep | frozenset(["reset_state"]))
 
     def bind(self, target_fn, call, fr, where):
         """callee param -> const-string set env; checks state position."""
@@ -638,10 +669,22 @@ class StateFlow(object):
                 for k in ks:
                     st = self.rec_read(fr, tgt, k, st, kind="augread")
             zero = (not aug) and isinstance(value, ast.Constant) and value.value == 0 and value.value is not False
+            fresh = (not aug) and len(ks) == 1 and isinstance(value, (ast.Dict, ast.List, ast.Set, ast.ListComp, ast.DictComp, ast.SetComp))
             for k in ks:
                 st = self.store(fr, k, st, tgt, zero=zero, weak=len(ks) > 1)
+                if fresh:
+                    st = st.with_F(("FRESH", k))
             return st
         if isinstance(tgt, (ast.Subscript, ast.Attribute)):
+            # nested store state[k][...]... = v : a mutation of the object state[k] refers to
+            base = tgt
+            while isinstance(base, (ast.Subscript, ast.Attribute)) and self.keys_of(base, fr) is None:
+                base = base.value
+            bk = self.keys_of(base, fr) if isinstance(base, ast.Subscript) else None
+            if bk and self.recording:
+                for k in bk:
+                    if k in self.alias_keys:
+                        self.alias_muts.append((fr.mod, fr.name, tgt, k, ("FRESH", k) in st.F, fr.stack))
             st = self.eval(tgt.value, st, fr)
             if isinstance(tgt, ast.Subscript):
                 st = self.eval(tgt.slice, st, fr)
@@ -999,6 +1042,7 @@ class StateFlow(object):
         self.epoch += 1
         self._blocked_cache = None
         self.reads, self.divs, self.dyn = [], [], []
+        self.alias_muts = []
         self.functions = OrderedDict()
         self.call_sites = 0
         self.implied_obs.clear()
